@@ -384,7 +384,7 @@ func runC03(env *core.Env) {
 	shortCov := shortWritePhase(env, "C03", f.SA, []crashCmd{menu[0], menu[3], menu[4], menu[8]})
 	env.Finish("model_checking", map[string]interface{}{
 		"short_write_phase": shortCov,
-		"states": len(seen), "transitions": crashStates + tornStates + followUps, "traces_validated_against_impl": crashStates,
+		"states":            len(seen), "transitions": crashStates + tornStates + followUps, "traces_validated_against_impl": crashStates,
 		"samples": samples.list, "exhaustive": exhaustive && notLanded == 0, "crash_depth": maxDepth,
 		"crash_states": crashStates, "torn_states": tornStates, "distinct_states": len(seen), "states_checked": statesChecked,
 		"recovery_commands_run": followUps, "strace_runs": straceRuns, "kill_points_not_landed": notLanded, "outcome_classes": classes.snapshot(),
